@@ -425,6 +425,24 @@ func (e *exprCtx) expr(v ssa.Value) string {
 		if e.seen[x] {
 			return "phi@"
 		}
+		// a counter that starts at 0 and is incremented by 1 per iteration (`for i := 0; …; i++`) is rendered like the
+		// index go/ssa synthesises for `for i := range s`, so that the two loop forms read alike
+		if len(x.Edges) == 2 {
+			for k := 0; k < 2; k++ {
+				z, okz := constInt(x.Edges[k])
+				inc, oki := x.Edges[1-k].(*ssa.BinOp)
+				if _, isC := x.Edges[k].(*ssa.Const); okz && isC && z == 0 && oki && inc.Op == token.ADD {
+					one, ok1 := constInt(inc.Y)
+					if inc.X == ssa.Value(x) && ok1 && one == 1 {
+						return "(1 + phi((1 + phi@)|-1))"
+					}
+					one, ok1 = constInt(inc.X)
+					if inc.Y == ssa.Value(x) && ok1 && one == 1 {
+						return "(1 + phi((1 + phi@)|-1))"
+					}
+				}
+			}
+		}
 		e.seen[x] = true
 		var parts []string
 		for _, ed := range x.Edges {
@@ -2117,4 +2135,43 @@ func allocOfStruct(al *ssa.Alloc, nameSuffix string) bool {
 		return false
 	}
 	return strings.HasSuffix(typeName(al.Type()), nameSuffix)
+}
+
+// valueCase: one of the values a variable can have at a use, with the conditions under which it has it.
+type valueCase struct {
+	V      ssa.Value
+	E      string
+	Guards []string
+}
+
+// valueCases resolves v as used in block blk into its alternatives: a phi contributes one case per incoming edge (with
+// the conditions of that edge), anything else is a single case under blk's guards. "One store of a chosen value" and
+// "one store per branch" read alike through it.
+func (c *Ctx) valueCases(v ssa.Value, blk *ssa.BasicBlock) []valueCase {
+	var out []valueCase
+	var walk func(v ssa.Value, gs []string, depth int)
+	walk = func(v ssa.Value, gs []string, depth int) {
+		for {
+			switch x := v.(type) {
+			case *ssa.ChangeType:
+				v = x.X
+				continue
+			case *ssa.MakeInterface:
+				v = x.X
+				continue
+			}
+			break
+		}
+		if phi, ok := v.(*ssa.Phi); ok && depth < 4 {
+			for k, e := range phi.Edges {
+				if k < len(phi.Block().Preds) {
+					walk(e, edgeGuards(c, phi.Block().Preds[k], phi.Block()), depth+1)
+				}
+			}
+			return
+		}
+		out = append(out, valueCase{v, c.Expr(v), gs})
+	}
+	walk(v, c.guardStrs(blk), 0)
+	return out
 }
